@@ -21,6 +21,17 @@ type c06Case struct {
 	Alias bool   `json:"alias,omitempty"`
 	U     uint64 `json:"u,omitempty"`
 	Class string `json:"class"`
+	// Decoy: before the judged call, the same operation runs on another object holding the same value, whose result is
+	// then modified in place (a memo keyed by value, or one that keeps a pointer to an earlier result, gives itself away).
+	Decoy bool `json:"decoy,omitempty"`
+	// Chain: a sequence of operations applied to ONE receiver, judged after every step (Op == "chain").
+	Chain []c06Step `json:"chain,omitempty"`
+}
+
+type c06Step struct {
+	Op string `json:"op"`
+	T  string `json:"t,omitempty"`
+	U  uint64 `json:"u,omitempty"`
 }
 
 func init() {
@@ -30,6 +41,8 @@ func init() {
 		Rule: "cases = (op, s, t, aliasing) with op in {Add,Subtract,Multiply,Square,Invert,Pow,SetUInt64,Zero,One,MinusOne,Set,Copy}: operands from the structured list mod n (0,1,2,n-1,n-2,(n±1)/2,2^k,2^k±1,n-2^k, " +
 			"n with one limb perturbed, R mod n neighbourhood, bit patterns), Montgomery-domain structured values (stored limbs on carry boundaries), operand pairs whose stored forms sum/differ to n-1,n,n+1,2^256-1,2^256,2^256+1,0,1, " +
 			"limb-structured 4-tuples, receiver aliased with the argument, nil arguments, PRNG cases. Oracle: math/big mod n (ModInverse, Exp); the stored limbs of the result must be < n and the argument's stored limbs bit-identical afterwards. " +
+			"" +
+			"History: (decoy) the same operation first runs on another object of equal value whose result is then changed in place; (chain) 12-step sequences of operations on one receiver, judged after every step, with arguments drawn from a small pool so that values and objects recur. " +
 			"non-trivial = at least one operand not in {0,1}; distinct by the whole case.",
 		NewCase:  func() any { return &c06Case{} },
 		Generate: c06Generate,
@@ -37,7 +50,7 @@ func init() {
 		Require: func(string) map[string]int64 {
 			return map[string]int64{
 				"op:add": 1000, "op:sub": 1000, "op:mul": 1000, "op:square": 300, "op:invert": 300, "op:pow": 300, "op:setuint64": 100,
-				"alias": 300, "t:nil": 5, "invert:0": 1, "pow:t=0": 3, "pow:pad": 3, "class:carry-sum": 100, "class:carry-diff": 100, "class:mont-structured": 100,
+				"alias": 300, "t:nil": 5, "invert:0": 1, "pow:t=0": 3, "pow:pad": 3, "class:carry-sum": 100, "class:carry-diff": 100, "class:mont-structured": 100, "decoy": 500, "chains": 200, "chain-steps": 2000,
 			}
 		},
 	})
@@ -156,13 +169,188 @@ func c06Generate(c *mon.Ctx) {
 			cs.T = cs.S
 		}
 
+		if r.Intn(6) == 0 {
+			cs.Decoy = true
+		}
+
 		return cs
 	})
+
+	// decoys on the structured unary/binary operations
+	for i, v := range st {
+		for _, op := range []string{"invert", "square", "pow", "mul", "add"} {
+			op, sv, tv, cl := op, hx(v.X), hx(st[(i*3+1)%len(st)].X), v.Class
+			c.Structured(func() any { return &c06Case{Op: op, S: sv, T: tv, Class: cl, Decoy: true} })
+		}
+	}
+
+	// chains
+	chainOps := []string{"add", "sub", "mul", "square", "invert", "pow", "set", "setuint64", "zero", "one", "minusone", "decode", "cselect0", "cselect1", "random", "copy-back"}
+
+	c.Random(c.N(1500, 150000), func(r *gen.Rng) any {
+		poolVals := []string{hx(gen.Draw(r, n).X), hx(gen.Draw(r, n).X), "0", "1", "2", hx(new(big.Int).Sub(n, big.NewInt(1)))}
+		cs := &c06Case{Op: "chain", S: poolVals[r.Intn(2)], Class: "chain"}
+
+		for i := 0; i < 12; i++ {
+			st := c06Step{Op: chainOps[r.Intn(len(chainOps))], T: poolVals[r.Intn(len(poolVals))], U: r.U64() >> uint(r.Intn(64))}
+			if st.Op == "pow" {
+				st.T = []string{"0", "1", "2", "3", hx(new(big.Int).Sub(n, big.NewInt(2)))}[r.Intn(5)]
+			}
+
+			if st.Op == "random" && st.T == "0" {
+				st.T = "7"
+			}
+
+			cs.Chain = append(cs.Chain, st)
+		}
+
+		return cs
+	})
+}
+
+func c06RunChain(c *mon.Ctx, cs *c06Case) {
+	n := oracle.N
+	val := mon.BigH(cs.S)
+	s := mon.Scal(val)
+	m := func(x *big.Int) *big.Int { return oracle.Mod(x, n) }
+
+	c.Count("chains")
+
+	for i, st := range cs.Chain {
+		var tv *big.Int
+		if st.T != "" {
+			tv = mon.BigH(st.T)
+		}
+
+		c.Count("chain-steps")
+		c.Eval(1)
+
+		pan, pv := mon.Call(func() {
+			switch st.Op {
+			case "add":
+				s.Add(mon.Scal(tv))
+				val = m(new(big.Int).Add(val, tv))
+			case "sub":
+				s.Subtract(mon.Scal(tv))
+				val = m(new(big.Int).Sub(val, tv))
+			case "mul":
+				s.Multiply(mon.Scal(tv))
+				val = m(new(big.Int).Mul(val, tv))
+			case "square":
+				s.Square()
+				val = m(new(big.Int).Mul(val, val))
+			case "invert":
+				s.Invert()
+
+				if val.Sign() != 0 {
+					val = new(big.Int).ModInverse(val, n)
+				}
+			case "pow":
+				s.Pow(mon.Scal(tv))
+
+				if tv.Sign() == 0 {
+					val = big.NewInt(1)
+				} else {
+					val = new(big.Int).Exp(val, tv, n)
+				}
+			case "set":
+				s.Set(mon.Scal(tv))
+				val = tv
+			case "setuint64":
+				s.SetUInt64(st.U)
+				val = new(big.Int).SetUint64(st.U)
+			case "zero":
+				s.Zero()
+				val = new(big.Int)
+			case "one":
+				s.One()
+				val = big.NewInt(1)
+			case "minusone":
+				s.MinusOne()
+				val = new(big.Int).Sub(n, big.NewInt(1))
+			case "decode":
+				if err := s.Decode(oracle.Bytes32(tv)); err != nil {
+					panic("decode of a canonical value rejected: " + err.Error())
+				}
+
+				val = tv
+			case "cselect0":
+				_ = s.CSelect(0, mon.Scal(tv), s)
+				val = tv
+			case "cselect1":
+				_ = s.CSelect(st.U|1, s, mon.Scal(tv))
+				val = tv
+			case "random":
+				mon.ApplyScalarMove(s, mon.ScalarMove{Via: "random", From: "0", To: st.T, Aux: "0"})
+				val = tv
+			case "copy-back":
+				// s = s.Copy(): the variable now designates a new object; the old one is then changed
+				old := s
+				s = s.Copy()
+				old.Add(mon.Scal(big.NewInt(1)))
+			default:
+				panic("harness: unknown chain op " + st.Op)
+			}
+		})
+		if pan {
+			if ms, ok := pv.(string); ok && len(ms) > 8 && ms[:8] == "harness:" {
+				panic(ms)
+			}
+
+			c.Fail(fmt.Sprintf("chain step %d (%s) panicked: %v", i, st.Op, pv), "scalar-chain-panic:"+st.Op, nil)
+
+			return
+		}
+
+		if got := mon.ScalVal(s); got.Cmp(val) != 0 || !mon.ScalCanonical(s) {
+			c.Fail(fmt.Sprintf("after step %d (%s %s) of a chain on one receiver the scalar is %x (stored %s), want %x", i, st.Op, st.T, got, mon.HexLimbs(s.S), val), "scalar-chain:"+st.Op, map[string]any{"step": i})
+			return
+		}
+	}
+
+	c.Seen(cs.S, cs.Chain)
 }
 
 func c06Run(c *mon.Ctx, csAny any) {
 	cs := csAny.(*c06Case)
 	n := oracle.N
+
+	if cs.Op == "chain" {
+		c06RunChain(c, cs)
+		return
+	}
+
+	if cs.Decoy {
+		c.Count("decoy")
+
+		d := mon.Scal(mon.BigH(cs.S))
+
+		var dt *secp256k1.Scalar
+		if cs.T != "" && cs.T != "nil" {
+			dt = mon.Scal(mon.BigH(cs.T))
+		}
+
+		_, _ = mon.Call(func() {
+			switch cs.Op {
+			case "add":
+				d.Add(dt)
+			case "sub":
+				d.Subtract(dt)
+			case "mul":
+				d.Multiply(dt)
+			case "square":
+				d.Square()
+			case "invert":
+				d.Invert()
+			case "pow":
+				d.Pow(dt)
+			default:
+				d.Encode()
+			}
+			// change the decoy's result in place
+			d.Multiply(mon.Scal(big.NewInt(3))).Add(mon.Scal(big.NewInt(1)))
+		})
+	}
 	sv := mon.BigH(cs.S)
 	s := mon.Scal(sv)
 
